@@ -148,3 +148,54 @@ Definition tree_dims (mt : list Q -> Z -> bool -> Z) (spectrum : nat -> list Q) 
                         | EvTrunc _ c _ => upd d c (Z.min (mt (spectrum c) (Z.of_nat c) false) (py_len (spectrum c)))
                         | EvPush c => upd d c (qr_dim c (d c))
                         end) evs dims.
+
+(* ---------------------------------------------------------------- Part 4: configuration objects and copies *)
+(* A python object's attributes live in its __dict__.  The heap maps a reference (position) to the attribute
+   namespace of a CompressConfig; C = the type of criteria (generated).  Arrays are modelled by value: no code
+   of configs.py writes into a max_dims array in place (set_bonddim / update / relax assign new arrays). *)
+Inductive dict_binding := DictFreshCopy | DictAlias.   (* new.__dict__ = self.__dict__.copy() | new.__dict__ = self.__dict__ *)
+Inductive array_binding := ArrFreshCopy | ArrAlias.    (* new.max_dims = self.max_dims.copy() | (nothing / plain assignment) *)
+Inductive attr_binding := AttrCopyMethod | AttrShare.  (* new.compress_config = self.compress_config.copy() | = self.compress_config *)
+
+Record cfields (C : Type) := mk_cfields
+  { f_criteria : C; f_threshold : Q; f_bond_dim_max_value : Z; f_max_dims : option (list Z) }.
+Arguments mk_cfields {C} _ _ _ _.
+Arguments f_criteria {C} _.
+Arguments f_threshold {C} _.
+Arguments f_bond_dim_max_value {C} _.
+Arguments f_max_dims {C} _.
+
+Definition heap (C : Type) := list (cfields C).
+Definition h_get {C : Type} (dflt : cfields C) (h : heap C) (r : nat) : cfields C := nth r h dflt.
+Definition h_set {C : Type} (h : heap C) (r : nat) (f : cfields C) : heap C := set_nth r f h.
+
+(* CompressConfig.copy(): returns (heap, reference of the result's attribute namespace) *)
+Definition copy_config {C : Type} (b : dict_binding) (dflt : cfields C) (h : heap C) (r : nat) : heap C * nat :=
+  match b with
+  | DictAlias => (h, r)
+  | DictFreshCopy => (h ++ [h_get dflt h r], length h)
+  end.
+(* metacopy(): which configuration the new state object refers to *)
+Definition metacopy_config {C : Type} (a : attr_binding) (b : dict_binding) (dflt : cfields C) (h : heap C) (r : nat)
+  : heap C * nat :=
+  match a with AttrShare => (h, r) | AttrCopyMethod => copy_config b dflt h r end.
+
+(* attribute stores  x.compress_config.<attr> = v *)
+Definition store_M {C : Type} (dflt : cfields C) (h : heap C) (r : nat) (v : Z) : heap C :=
+  let f := h_get dflt h r in h_set h r (mk_cfields (f_criteria f) (f_threshold f) v (f_max_dims f)).
+Definition store_criteria {C : Type} (dflt : cfields C) (h : heap C) (r : nat) (c : C) : heap C :=
+  let f := h_get dflt h r in h_set h r (mk_cfields c (f_threshold f) (f_bond_dim_max_value f) (f_max_dims f)).
+Definition store_threshold {C : Type} (dflt : cfields C) (h : heap C) (r : nat) (t : Q) : heap C :=
+  let f := h_get dflt h r in h_set h r (mk_cfields (f_criteria f) t (f_bond_dim_max_value f) (f_max_dims f)).
+
+(* the ONLY place where max_dims is (re)computed: compress() does
+     if cc.bonddim_should_set: cc.set_bonddim(length)
+   -- so max_dims is a cache filled from bond_dim_max_value when it is None (and the criterion has a limit),
+   and never refreshed afterwards *)
+Definition ensure_max_dims {C : Type} (should_set : C -> option (list Z) -> bool)
+           (setb : option (list Z) -> Z -> nat -> list Z) (dflt : cfields C) (h : heap C) (r : nat) (length : nat) : heap C :=
+  let f := h_get dflt h r in
+  if should_set (f_criteria f) (f_max_dims f)
+  then h_set h r (mk_cfields (f_criteria f) (f_threshold f) (f_bond_dim_max_value f)
+                             (Some (setb (f_max_dims f) (f_bond_dim_max_value f) length)))
+  else h.
